@@ -132,7 +132,9 @@ def main():
                 cands.append((f, q, s))
     rnd.shuffle(cands)
     picked = cands[:n]
-    outdir = os.path.join(V, "mutants_auto", pid)
+    sub = sys.argv[sys.argv.index("--out") + 1] if "--out" in sys.argv else ""  # e.g. "seed2": a second sample next to the first
+    root = os.path.join(V, "mutants_auto", sub) if sub else os.path.join(V, "mutants_auto")
+    outdir = os.path.join(root, pid)
     os.makedirs(outdir, exist_ok=True)
     results = {"property": pid, "sites_in_anchored_functions": len(cands), "sampled": len(picked), "seed": seed, "mutants": []}
     for k, (f, q, site) in enumerate(picked):
@@ -167,7 +169,7 @@ def main():
         entry["seconds"] = round(time.time() - t0, 1)
         results["mutants"].append(entry)
         print(pid, name, entry["check"], entry.get("pinned_suite_kills_it"), what, flush=True)
-        json.dump(results, open(os.path.join(V, "mutants_auto", pid + ".json"), "w"), indent=1)
+        json.dump(results, open(os.path.join(root, pid + ".json"), "w"), indent=1)
 
 
 if __name__ == "__main__":
